@@ -265,6 +265,26 @@ def parts(tier):
                         rule="ordered pairs of interval sets (<=2) on the dyadic grid 2**40 + {0, 2**-7, 0.25, 0.5, 1, 2}: overlaps of 7.8 ms and "
                              "intervals 0.25 s apart are below 1e-14 resp. 1e-9 of the time values but are real", bounds={}))
 
+    def gen_size():
+        for n, layout, e in D.size_family(quick):
+            hi_ = e[-1][1] + 1.0
+            cuts = D.size_cuts(e)
+            for a, b in D.size_windows(cuts, near=6 if n < 100 else 3, far=2):
+                if a < 0:
+                    continue
+                yield (e, ((a, b, "x"),), hi_)
+            # two entries in B, the second far down the list
+            for a, b in D.size_windows(cuts, near=2, far=0)[::5]:
+                if a < 0 or b >= cuts[-2]:
+                    continue
+                yield (e, ((a, b, "x"), (cuts[-2], cuts[-1], "y")), hi_)
+
+    ps.append(InputPart("setops-size-sweep", gen_size, lambda c: _check_pair_on(c[0], c[1], 0.0, c[2], c[2]),
+                        rule="A = interval tiers of %s entries (gapped and contiguous), B = one or two intervals whose edges lie just before / at / inside / "
+                             "at the end of A's entries at both ends, at n/4, n/2, 3n/4 and at indices 8-10, 15-16, 255-257 (B spanning up to all of A): "
+                             "all four operations and the partition consequence, also with the operands swapped for union / mergeLabels"
+                             % (list(D.SIZES_QUICK if quick else D.SIZES_THOROUGH),), bounds={}, chunk=2))
+
     def gen_blank():
         small = D.cell_tiers(4, ["a"])
         for ta in small:
